@@ -754,6 +754,27 @@ Definition ssh_known_hosts_one (fixed : bool) (o : ssh_oracle) (l : known_hosts_
       end
   end.
 
+(* a known_hosts file of several lines (parsers.go:345 SSHKnownHosts): the entries of the lines one
+   after the other, each described from its own line alone; the first line the library refuses ends
+   the inspection with its error *)
+Fixpoint ssh_known_hosts_lines (fixed : bool) (ls : list (ssh_oracle * known_hosts_line)) : result (list info) :=
+  match ls with
+  | [] => Ok []
+  | (o, l) :: r =>
+      match ssh_known_hosts_one fixed o l with
+      | Ok i => match ssh_known_hosts_lines fixed r with
+                | Ok cs => Ok (i_children i ++ cs)
+                | Err e => Err e | Panic s => Panic s
+                end
+      | Err e => Err e | Panic s => Panic s
+      end
+  end.
+Definition ssh_known_hosts_file (fixed : bool) (ls : list (ssh_oracle * known_hosts_line)) : result info :=
+  match ssh_known_hosts_lines fixed ls with
+  | Ok cs => Ok (Info (bs "SSH known_hosts") [] cs)
+  | Err e => Err e | Panic s => Panic s
+  end.
+
 (* ------------------------------------------------------------------ *)
 (* OpenPGP public key packet: the key facts of gpgPublicKeyAttributes   *)
 (* (internal/file/pgp.go:54); packet/public_key.go:336 parse, :408      *)
